@@ -266,6 +266,7 @@ def accuracy(ctx, n_curves):
     be = _SynodicDetectionBackend()
     rng = ctx.rng
     ratios = {"linear": [], "cubic": []}
+    ratios_by = {}                      # (kind, refine) -> ratios: the two cubic code paths (with / without segment refinement) judged apart
     for it in range(n_curves):
         if not ctx.mine(it):
             continue
@@ -355,6 +356,7 @@ def accuracy(ctx, n_curves):
                     for a, b in zip(ea, eb):
                         if a > 1e-9 and b > 1e-11:
                             ratios[kind].append(a / b)
+                            ratios_by.setdefault((kind, refine), []).append(a / b)
                             ctx.count(f"T2:conclusive refinement ratio[{kind}]")
     nonuniform_accuracy(ctx, be, max(4, n_curves // 4))
     edge_segments(ctx, be, max(16, n_curves // 2))
@@ -373,6 +375,15 @@ def accuracy(ctx, n_curves):
                        "percentiles": np.percentile(r, [5, 25, 50, 75, 95]).tolist()}, mech)
         elif ctx.nshards == 1:
             ctx.mark_inconclusive(f"too few conclusive refinement ratios for {kind}: {r.size}")
+    for (kind, refine), rr in sorted(ratios_by.items()):
+        r = np.array(rr)
+        if r.size >= 20:
+            gm = float(np.exp(np.mean(np.log(r))))
+            ctx.stat(f"geomean_refinement_ratio[{kind}:refine{refine}]", gm)
+            # per code path: second order (ratio 4) for linear, faster for cubic; looser than the pooled bound because fewer samples
+            thr = 3.0 if kind == "linear" else 5.0
+            ctx.check(gm >= thr, f"T2:error shrinks at the documented rate under grid refinement[{kind}, segment_refine={'0' if refine == 0 else '>0'}]",
+                      {"geomean_ratio": gm, "n": int(r.size), "threshold": thr, "percentiles": np.percentile(r, [5, 25, 50, 75, 95]).tolist()})
     ctx.note("n_ratios_linear", len(ratios["linear"]))
     ctx.note("n_ratios_cubic", len(ratios["cubic"]))
 
